@@ -148,7 +148,7 @@ impl World {
                 ));
                 continue;
             }
-            if !want && alive {
+            if !want && alive && shadow::QUARANTINE.load(std::sync::atomic::Ordering::Relaxed) {
                 problems.push((
                     "unreachable-retained".into(),
                     format!("{}@{}", kind, after),
@@ -628,6 +628,10 @@ fn gen_ops(rng: &mut Rng) -> Vec<Value> {
         ops.push(op);
     }
     ops
+}
+
+pub fn gen_ops_pub(rng: &mut Rng) -> Vec<Value> {
+    gen_ops(rng)
 }
 
 pub fn spec_of(ops: &[Value]) -> Value {
